@@ -21,7 +21,7 @@ INFO = {
     'assumptions': ['the stub producer implements express_interest as documented (returns name, meta, content or raises '
                     'InterestTimeout / InterestNack / ValidationFailure)'],
 }
-MANDATORY = {'fetch': ['yielded-sequence']}
+MANDATORY = {'fetch': ['yielded-sequence'], 'fetch_app': ['yielded-sequence', 'final-outcome']}
 
 
 def h_fetch(eng, case):
@@ -205,7 +205,115 @@ def nxt_requests_ok(seen, prefix, retry):
     return True
 
 
-HARNESSES = {'fetch': h_fetch}
+def h_fetch_app(eng, case):
+    """the fetcher on the real legacy front-end: a stub forwarder answers each Interest on the face with the segment,
+    a Nack (any reason code) or silence; what the application sees must be the reference simulation of that script"""
+    import ndn.encoding as enc
+    import ndn.types as types
+    from ndn.app_support.segment_fetcher import segment_fetcher
+    from ndn.encoding import Component, Name
+    from .c17 import _wait_send
+    N = case['N']
+    retry = case['retry']
+    app, face = appenv.make_app('v1')
+    script = []                      # per request: ('data',) | ('nack', reason) | ('silence',)
+    reqs = []
+
+    async def forwarder():
+        seen = 0
+        while True:
+            while seen >= len(face.out):
+                await _wait_send(face)
+            while seen < len(face.out):
+                wire = face.out[seen]
+                seen += 1
+                n, p, _, _ = enc.parse_interest(wire)
+                n = [bytes(c) for c in n]
+                sel = eng.choice(3, 'answer')
+                if len(n) == 1:
+                    seg = 0                                        # discovery is answered by segment 0
+                else:
+                    seg = Component.to_number(n[-1])
+                reqs.append(seg)
+                if sel == 0 and seg < N:
+                    script.append(('data',))
+                    fb = Component.from_segment(N - 1)
+                    d = enc.make_data(Name.from_str('/obj') + [Component.from_segment(seg)],
+                                      enc.MetaInfo(final_block_id=fb), b'seg%d' % seg)
+                    await app._receive(6, bytes(d))
+                elif sel == 1:
+                    reason = eng.int('reason', 0, 2 ** 64 - 1)
+                    script.append(('nack', reason))
+                    await app._receive(0x64, enc.make_network_nack(wire, reason))
+                else:
+                    script.append(('silence',))
+
+    got = []
+    res = {}
+
+    async def main(loop):
+        ml = asyncio.ensure_future(app.main_loop())
+        await asyncio.sleep(0)
+        fw = asyncio.ensure_future(forwarder())
+        try:
+            async for c in segment_fetcher(app, '/obj', timeout=100, retry_times=retry):
+                got.append(bytes(c))
+            res['end'] = ('done',)
+        except types.InterestTimeout:
+            res['end'] = ('timeout',)
+        except types.InterestNack as e:
+            res['end'] = ('nack', e.reason)
+        except Exception as e:
+            res['end'] = ('error', exc_sig(e))
+        fw.cancel()
+        app.shutdown()
+        try:
+            await ml
+        except Exception:
+            pass
+    loop, r, err = appenv.run(eng, main, max_steps=20000)
+    if err == 'deadlock' or 'end' not in res:
+        eng.fail('final-outcome', 'deadlock')
+        return
+    # reference simulation of the script
+    exp_got = []
+    exp_end = None
+    seg = 0
+    tries = 0
+    for ans in script:
+        if ans[0] == 'data':
+            exp_got.append(b'seg%d' % seg)
+            if seg == N - 1:
+                exp_end = ('done',)
+                break
+            seg += 1
+            tries = 0
+        elif ans[0] == 'nack':
+            exp_end = ('nack', ans[1])
+            break
+        else:
+            tries += 1
+            if tries >= retry:
+                exp_end = ('timeout',)
+                break
+    if exp_end is None:
+        eng.fail('final-outcome', 'script-ended-before-the-fetch', {'script': repr(script)[:100], 'end': repr(res['end'])})
+        return
+    end = res['end']
+    same = end[0] == exp_end[0]
+    if same and end[0] == 'nack':
+        same = end[1] == exp_end[1]
+    eng.check(same, 'final-outcome', {'got': repr(end), 'expected': repr(exp_end)},
+              sig='%s-instead-of-%s' % (end[0], exp_end[0]))
+    eng.check(got == exp_got, 'yielded-sequence', {'got': got, 'expected': exp_got})
+    if loop.errors:
+        exc = loop.errors[0].get('exception')
+        eng.fail('no-unhandled-error-in-loop', exc_sig(exc) if exc is not None else '?')
+    eng.observe('end', end[0])
+    eng.reach('end')
+
+
+HARNESSES = {'fetch': h_fetch, 'fetch_app': h_fetch_app}
 
 
 def cases(tier, seed):
@@ -223,4 +331,6 @@ def cases(tier, seed):
                 if N in (2, 3) and m == 'last':
                     for fk in ('nack', 'vfail'):
                         cs.append(('fetch', {'N': N, 'retry': retry, 'marker': m, 'fail': fk}, {'weight': w * 3}))
+    for N, retry in ((1, 1), (2, 2), (3, 1)) if tier == 'quick' else ((1, 1), (2, 2), (3, 1), (3, 2), (2, 3)):
+        cs.append(('fetch_app', {'N': N, 'retry': retry}, {'weight': 3 ** (N + retry), 'split_depth': 3}))
     return cs
